@@ -189,6 +189,19 @@ impl<K, V, S> HashMap<K, V, S> {
         }
     }
 
+    /// Number of bins of the current table (0 = not allocated), read without synchronisation.
+    ///
+    /// # Safety
+    /// As for [`HashMap::verif_dump`].
+    pub unsafe fn verif_table_len(&self) -> usize {
+        let t = self.table.verif_raw();
+        if t.is_null() {
+            0
+        } else {
+            (**t).len()
+        }
+    }
+
     /// The resize stamp for a table of `n` bins, as used in `size_ctl`.
     pub fn verif_resize_stamp(n: usize) -> isize {
         Self::resize_stamp(n)
